@@ -53,3 +53,10 @@ PROPS['C16'] = A(level='model_checking',
     bounds=A(quick='lifetime registry + tracking allocator as a second oracle over the C13/C14/C17 explorations (same bounds), plus unique_ptr / unique_memory / construct+destruct helpers to fixpoint; after EVERY transition all owners are destroyed and the registries must be empty',
              thorough='same harnesses at their thorough bounds'),
     assumptions=TRUST)
+
+RX_H = [A(src='harness/c09_radix.cpp', san='asan')]
+PROPS['C09'] = A(level='model_checking', harnesses=RX_H, budget=A(quick=170, thorough=1500),
+    bounds=A(quick='every subset S, |S|<=3, of a 20-key alphabet (0, 2^64-1, 1<<(60-4j) for j=0..15, 2<<60, 2: pairs first differ at every nibble position); insert/find_or_insert/erase histories over S of any length (fixpoint); find() of every key of S and of 32 single-nibble neighbours per key, and full iteration, after every transition',
+             thorough='every subset of size <=3 of a 41-key alphabet (adds 2<<(60-4j), 15, 2^64-16, 8<<60, 3) plus every 4-subset of the 20-key alphabet; fixpoint'),
+    assumptions=TRUST)
+PROPS['C16']['harnesses'] = PROPS['C16']['harnesses'] + RX_H
